@@ -258,6 +258,10 @@ def r19b(ctx, run):
     op = Variant("Ty::Optional", {"sub_ty": A})
     expect_rec("?a with tag at 12", "aggregate:optional", op, 0, [(A, 0)], {1: "Int"}, enum_discr={repr(op): 12})
     expect_rec("?^T (nullable pointer)", "aggregate:optional-pointer", op, 8, [], {1: "Int"}, sizes={repr(op): 8})
+    # the tag's eightbyte is counted from the start of the whole argument, not of the tagged value: a tagged value that is a struct member
+    expect_rec("?a at offset 8 with tag at 4", "aggregate:optional-at-offset", op, 8, [(A, 8)], {1: "Int"}, enum_discr={repr(op): 4})
+    expect_rec("enum {a | b} at offset 8 with tag at 4", "aggregate:enum-at-offset", en, 8, [(A, 8), (B, 8)], {1: "Int"}, enum_discr={repr(en): 4})
+    expect_rec("a!b at offset 16 with tag at 9", "aggregate:error-union-at-offset", eu, 16, [(A, 16), (B, 16)], {3: "Int"}, enum_discr={repr(eu): 9})
 
 
 # ---- (c) post merger of classify_arg ----------------------------------------------------------------------
